@@ -68,6 +68,20 @@ class BadRepr:
         raise RuntimeError("repr of BadRepr")
 
 
+def _liar(claimed):
+    """an object whose __class__ is not its type (mocks, proxies and rpyc's own netrefs do this): the serializer goes by the exact
+    TYPE, so such an object is unserializable whatever it claims to be"""
+    class Liar:
+        __class__ = property(lambda self: claimed)
+        def __iter__(self): return iter((1, 2))
+        def __len__(self): return 2
+        def __repr__(self): return "<liar claiming %s>" % claimed.__name__
+    return Liar()
+
+
+LIARS = [_liar(type(None)), _liar(tuple), _liar(int), _liar(str), _liar(bytes), _liar(bool), _liar(frozenset)]
+
+
 class LoudRepr:
     """its repr has a side effect: refusing it must not run it"""
     calls = 0
@@ -453,7 +467,7 @@ def run(ctx):
                                   "non-trivial = anything but None/bool (encode) or longer than one byte (decode); distinct by canonical form")
     # corpus first
     corpus = NEAR_LIMIT + ["\ud800", ("a", "\udfff"), (), (1,) * 255, (1,) * 256, b"x" * 255, b"x" * 256, "é" * 128, frozenset([1, 1.0, True]),
-              slice(None, (1, "a"), 2.5), -0x30, -0x31, 0x9f, 0xa0, MyInt(3), (MyStr("a"),), float("nan")]
+              slice(None, (1, "a"), 2.5), -0x30, -0x31, 0x9f, 0xa0, MyInt(3), (MyStr("a"),), float("nan")] + LIARS + [(1, x) for x in LIARS] + [frozenset([LIARS[2]]), slice(LIARS[0], 1, 2)]
     values = list(corpus)
     depth = 4 if ctx.quick else 6
     for i in range(n_enc):
